@@ -278,6 +278,7 @@ theorem simVarsC_refused (cfg : Cfg R T) :
 
 /-! ### the call log -/
 
+omit [DecidableEq T] in
 theorem mem_callLog (t : List (Ev R T)) (i : Nat) : i ∈ callLog t ↔ Ev.call i ∈ t := by
   induction t with
   | nil => simp [callLog]
@@ -310,7 +311,7 @@ theorem simVarsC_mainEq (cfg : Cfg R T) :
       simVarsC cfg is d c outs = simVarsC cfg is d' c outs
   | [], d, d', c, outs, _ => rfl
   | i :: is, d, d', c, outs, h => by
-    rw [simVarsC, simVarsC, runVarC_mainEq cfg i d d' c outs (h.1 i)]
+    rw [simVarsC, simVarsC, runVarC_mainEq cfg i d d' c outs (h i)]
     cases (runVarC cfg i d' c outs).res with
     | error e => rfl
     | ok st =>
